@@ -8,7 +8,7 @@ import re
 from ..core import Ctx, RuleResult, finding, short, walk_no_nested
 from ..model import AnalysisError, norm
 from ..mutants import Mut
-from ..rules import accum, loopfresh, fwd, dim, fresh, kind, posbound, runpos
+from ..rules import accum, loopfresh, fwd, dim, fresh, kind, memo, posbound, runpos
 from ..rules.defuse import DefUse
 from ..rules.util import callee_name, calls_in, cfg_of, lin_str, linear, nodes_where
 from ..tables import C01_DIM_EXCEPTIONS
@@ -29,6 +29,7 @@ EXPLANATION = (
     ' (21) NONNEG: the position given to CanvasOverlay() / overlay() is clamped at 0 wherever the calling function itself treats it as possibly negative (fix a7d4a9b: Overlay with a packed top widget wider than the screen gave rows of 9, 11, 9 columns).'
     ' (22) SIB: every inversion of a relative size (child * 100 / percent) in the widget layer rounds to the nearest cell, so pack() and the padding computation of render() agree on the total (fix b429ef1: Padding.pack(()) == (17, 1) but render(()).cols() == 16).'
     ' (23) RUNPOS: every (value, length) run written by hand into a canvas (ProgressBar.render -> _attr / _cs) has a length that the dominating tests show positive - linear atoms from the tests, entailment of L > 0 (fix 31a962b: [(complete, 0), (normal, maxcol)] made content() yield an empty row).'
+    ' (24) MEMO: a hand-written dict memo (if K in self.D: return self.D[K] ... self.D[K] = v) whose value depends on a module global that a setter rebinds has such a global in its key (fix 39ac3d2: Font.render cached glyph canvases by character alone although their bytes come from apply_target_encoding()).'
 )
 NOT_DECIDED = (
     "That composed canvases actually have the requested size for all trees/sizes/texts (value semantics of shards, layout and padding); truthfulness of sizing(); wide-character column "
@@ -498,6 +499,7 @@ def run(ctx: Ctx):
         rule_overlay_position(ctx),
         rule_inverse_percent(ctx),
         runpos.run_runpos(ctx.p, "C01.23", ("urwid.widget",), floor=7),
+        memo.run_dict_memo(ctx.p, "C01.24", ("urwid",), floor=1),
     ]
 
 
@@ -506,6 +508,8 @@ _COLS = "urwid/widget/columns.py"
 _CANV = "urwid/canvas.py"
 _TEXT = "urwid/widget/text.py"
 MUTANTS = [
+    Mut("font-glyph-cache-by-character-only", "urwid/font.py", "Font.render", "        key = (character, get_encoding())\n", "        key = character\n", "MEMO|font.Font.render|dict memo self.canvas ignores"),
+    Mut("twin-font-cache-key-inline", "urwid/font.py", "Font.render", "        key = (character, get_encoding())\n", "        key = (get_encoding(), character)\n", twin=True),
     Mut("progressbar-empty-complete-run", "urwid/widget/progress_bar.py", "ProgressBar.render", "        elif ccol == 0:\n            # less than one column complete and no room for the smoothing character: no (empty) complete run\n            c._attr = [[(self.normal, maxcol)]]\n", "", "RUNPOS|widget.progress_bar.ProgressBar.render|run length ccol not shown positive"),
     Mut("progressbar-smooth-unguarded-run", "urwid/widget/progress_bar.py", "ProgressBar.render", "            if ccol > 0:\n                a.append((self.complete, ccol))\n", "            a.append((self.complete, ccol))\n", "RUNPOS|widget.progress_bar.ProgressBar.render|run length ccol not shown positive"),
     Mut("progressbar-full-test-off-by-one", "urwid/widget/progress_bar.py", "ProgressBar.render", "        elif ccol >= maxcol:", "        elif ccol > maxcol:", "RUNPOS|widget.progress_bar.ProgressBar.render|run length maxcol - ccol not shown positive"),
